@@ -303,14 +303,17 @@ class Sequencer(object):
             else:
                 self.set_instrument(channels[x], 1)
         current_bar = 0
-        max_bar = len(tracks[0])
+        max_bar = max([len(tr) for tr in tracks])
 
-        # Play the bars
+        # Play the bars; a track that has run out of bars stays silent
         while current_bar < max_bar:
             playbars = []
-            for tr in tracks:
-                playbars.append(tr[current_bar])
-            res = self.play_Bars(playbars, channels, bpm)
+            playchannels = []
+            for (tr, channel) in zip(tracks, channels):
+                if current_bar < len(tr):
+                    playbars.append(tr[current_bar])
+                    playchannels.append(channel)
+            res = self.play_Bars(playbars, playchannels, bpm)
             if res != {}:
                 bpm = res["bpm"]
             else:
